@@ -45,7 +45,7 @@ class C17:
     rule = ("all 81 placements of {regular file, directory, nothing} of one name in four directories x search-path sequences "
             "(all sequences of length 0-2 and sampled ones of length 3-4 over the four directories, a missing directory, "
             "duplicates and a tilde-prefixed literal directory) x names (relative, sub/relative, absolute existing / missing "
-            "/ directory, empty, ~, ~/x, ~root, ~root/x, ~bin/ls, ~nosuchuser/x, ~ + 300 bytes); every file carries a marker "
+            "/ directory - each with a decoy regular file at <search dir>/<that absolute name> -, empty, ~, ~/x, ~root, ~root/x, ~bin/ls, ~nosuchuser/x, ~ + 300 bytes); every file carries a marker "
             "value; each case under two heap fill patterns. Oracle: file model (first directory in the order added that "
             "holds a regular file; absolute names bypass the list; tilde per passwd database, unknown user unchanged); "
             "cfg_parse(name) and include(name) load the same marker; both fills give identical answers. Non-trivial = >= 2 "
@@ -88,6 +88,15 @@ class C17:
                 s.add("mkfifo", hx(os.path.join(root, "d1", "fifo.conf")))            # neither a regular file nor a directory
                 s.add("mkfile", hx(os.path.join(root, "d3", "fifo.conf")), hx("marker = 77\n"))
                 s.add("mkdir", hx(os.path.join(root, "abs_dir")))
+                # decoys: the absolute missing / directory names replicated below search directories (an absolute name bypasses the list)
+                for d in ("d1", "d3"):
+                    for nm_ in ("abs_missing.conf", "abs_dir"):
+                        cur = os.path.join(root, d)
+                        comps = [c for c in os.path.join(root, nm_).split("/") if c]
+                        for c in comps[:-1]:
+                            cur = os.path.join(cur, c)
+                            s.add("mkdir", hx(cur))
+                        s.add("mkfile", hx(os.path.join(cur, comps[-1])), hx("marker = 55\n"))
                 s.add("newcase")
                 s.add("init", 1, 0, 0)
                 for d in sub["path"]:
